@@ -72,6 +72,6 @@ pub fn props() -> Vec<PropCfg> {
         PropCfg { id: "C15", level: "exploration", scenarios: vec![&ZIPCRYPTO, &PYJUDGE], assumptions: vec![A_CODEC, "independent PKWARE cipher written from the APPNOTE pseudo-code with its own CRC table", "a wrong password passing the 1-byte check is legal (R5): it must then fail by EOF or return the original bytes"] },
         PropCfg { id: "C16", level: "fault_enumeration", scenarios: vec![&AES], assumptions: vec![A_CODEC, "independent WinZip-AES composition (PBKDF2-HMAC-SHA1, AES-CTR little-endian counter, HMAC-SHA1-80) validated at start-up against the third-party fixture in /repo/tests/data", "empty entries carry no tamper obligation (the property says non-empty)"] },
         PropCfg { id: "C17", level: "exploration", scenarios: vec![&ALIGN], assumptions: vec![A_MODEL, A_CODEC] },
-        PropCfg { id: "C20", level: "exploration", scenarios: vec![&CLONES, &CLONES_SHUTTLE, &PYJUDGE, &PYPRODUCER], assumptions: vec![A_CODEC, "part A: the scheduler owns the interleaving at script-step granularity (one handle thread released at a time); part B (shuttle, every source I/O call and the shared atomic are scheduling points) and the compile-time Send+Sync probe are run by bin/check C20"] },
+        PropCfg { id: "C20", level: "exploration", scenarios: vec![&CLONES, &CLONES_SHUTTLE], assumptions: vec![A_CODEC, "part A: the scheduler owns the interleaving at script-step granularity (one handle thread released at a time); part B (shuttle, every source I/O call and the shared atomic are scheduling points) and the compile-time Send+Sync probe are run by bin/check C20"] },
     ]
 }
